@@ -123,14 +123,14 @@ def move_staticmethod_static_scope(source: str, preserve: Collection[str]) -> st
             and (node.value.func.id, node.attr) in class_function_names
         ):
             class_attribute_accesses.add(node)
-        elif isinstance(node.value, ast.Name):
-            if (
-                node.value.id in {"self", "cls"}
-                or (node.value.id, node.attr) in class_function_names
-            ):
-                class_attribute_accesses.add(node)
-            else:
-                attributes_to_preserve.add(node.value.id)
+        elif isinstance(node.value, ast.Name) and (
+            node.value.id in {"self", "cls"}
+            or (node.value.id, node.attr) in class_function_names
+        ):
+            class_attribute_accesses.add(node)
+        else:
+            # Accessed through something that is not known to be the class, e.g. an instance
+            attributes_to_preserve.add(node.attr)
 
     static_names = {funcdef.name for funcdef in parsing.iter_funcdefs(root)} | preserve
     name_replacements = {}
